@@ -455,6 +455,9 @@ def s_merge_in(g, tier):
             if all(not isinstance(c, dict) for c in combo): out.append(app({"merge": list(combo)}, None))
     for v in vals:
         if not isinstance(v, (list, dict)): out.append(app({"merge": v}, None))
+        # a single operand written without brackets and computed: still ONE operand (spliced one level)
+        out.append(app({"merge": {"var": "v"}}, {"v": v})); out.append(app({"merge": [{"var": "v"}]}, {"v": v}))
+        out.append(app({"merge": {"merge": [{"var": "v"}, [[7]]]}}, {"v": v})); out.append(app({"merge": {"if": [True, {"var": "v"}]}}, {"v": v}))
     needles = [1, 1.0, 1e0, -0.0, 0, 0.0, 2 ** 53, 2 ** 53 + 1, float(2 ** 53), 2 ** 63, float(2 ** 63), U64MAX, float(2 ** 64), I64MIN, float(-2 ** 63), 1.5, -1, -1.0, 1e30, 1e31, 1e300,
                "a", "", "é", "😀", "ab", "b", None, True, False, [], [1], [1.0], [1, 2], [[1]], {}, {"a": 1}, {"a": 1.0}, {"b": 2, "a": 1}, {"a": 1, "b": 2}, {"a": [1, {"b": -0.0}]},
                {"a": [1.0, {"b": 0}]}, "1", [None], {"a": None}, {"a": 1, "b": 2, "c": 3}, 10 ** 18, float(10 ** 18), 1e29, 10 ** 19]
